@@ -320,6 +320,25 @@ def chain_cases(rng, tier):
         oflags = r.choice(OFLAGS)
         if "--ocsv" in oflags and fmt == "csv":
             oflags = ["--ocsv"]
+        if fmt in ("dkvp", "csv", "csvlite") and r.chance(0.15):
+            # comment lines, also in runs as long as a (small) batch: a batch may consist of comments only
+            cflag = "--skip-comments" if ("E" in tags or r.chance(0.5)) else "--pass-comments"
+            iflags = iflags + [cflag]
+
+            def with_comments(text):
+                lines = text.split("\n")
+                body = lines[:-1] if lines and lines[-1] == "" else lines
+                out = []
+                for j, ln in enumerate(body):
+                    if (j > 0 or fmt == "dkvp") and ln != "" and r.chance(0.3):
+                        out += ["# comment %d.%d" % (j, k) for k in range(r.choice([1, 1, 2, 3, 5]))]
+                    out.append(ln)
+                if r.chance(0.3):
+                    out.append("# trailing comment")
+                return "\n".join(out) + "\n" if out else text
+            if stdin is not None:
+                stdin = with_comments(stdin)
+            files = {k: with_comments(v) for k, v in files.items()}
         args = ["mlr"] + iflags + oflags + chain_args(verbs) + names
         yield {"kind": "chain", "args": args, "files": files, "stdin": stdin, "tags": tags, "cseed": r.randint(1, 1 << 40),
                "nconf": 5 if tier == "quick" else 8, "sweep": tier != "quick" and r.chance(0.3)}
